@@ -156,6 +156,31 @@ class IdProp(PropBase):
         tbl, ambiguous = rec.table()
         return est, code, exc, tbl, ambiguous, mutated
 
+    def owned_objects_unchanged(self, case):
+        """Hand identify() an Identification/Query built by the caller and check that neither it nor the graph changes,
+        and that asking the same object again gives the same verdict."""
+        from y0.algorithm.identify import Identification, Query, Unidentifiable, identify
+        gr = GG.to_y0(case["g"])
+        q = Query(outcomes={GG.V(v) for v in case["Y"]}, treatments={GG.V(v) for v in case["X"]})
+        ident = Identification(query=q, graph=gr)
+        snap = (set(q.outcomes), set(q.treatments), set(q.conditions), GG.snapshot(ident.graph), GG.snapshot(gr), str(ident.estimand))
+        def ask():
+            try:
+                return str(identify(ident))
+            except Unidentifiable:
+                return "unidentifiable"
+            except Exception as ex:  # noqa: BLE001
+                return "exception:" + type(ex).__name__
+        first = ask()
+        now = (set(q.outcomes), set(q.treatments), set(q.conditions), GG.snapshot(ident.graph), GG.snapshot(gr), str(ident.estimand))
+        if now != snap:
+            changed = [n for n, a, b in zip(("outcomes", "treatments", "conditions", "identification graph", "graph", "estimand"), snap, now) if a != b]
+            return f"identify() changed the caller's {', '.join(changed)} (treatments {sorted(map(str, snap[1]))} -> {sorted(map(str, now[1]))})"
+        second = ask()
+        if first.startswith("exception") != second.startswith("exception") or (first == "unidentifiable") != (second == "unidentifiable"):
+            return f"asking the same Identification twice gives {first!r} then {second!r}"
+        return None
+
     def run(self, case):
         g, X, Y = case["g"], case["X"], case["Y"]
         est, code, exc, tbl, ambiguous, mutated = self.call(case)
@@ -164,6 +189,10 @@ class IdProp(PropBase):
             violation, key = f"ID raised {exc} on a valid query", f"C02/crash/{exc}"
         elif mutated:
             violation, key = "identify_outcomes modified the caller's graph or query", "C02/mutation"
+        if violation is None:
+            own = self.owned_objects_unchanged(case)
+            if own:
+                violation, key = own, "C02/mutation"
         want = IDENT.identifiable(g, X, Y)
         if violation is None and (est is not None) != want:
             violation = (f"ID {'returned an estimand' if est is not None else 'refused'} but the effect is "
